@@ -297,6 +297,10 @@ def _load_bs(basis_dir, n, degree, verbose=False):
         print('Incompatible cached basis-set file!')
         return None
 
+    if bs.shape != (best_size, best_size):
+        print('Incompatible cached basis-set file!')
+        return None
+
     if best_size > n:
         bs = bs[:n, :n]
         if verbose:
